@@ -147,3 +147,39 @@ Theorem C04_out_bytes_example :
   length (CO.outbufs (fst r)) = 1 /\ CO.total_outbufs_len (fst r) = 2%Z.
 Proof. exact (conj (proj1 COP.ex_ops_ok) (conj (proj2 COP.ex_ops_ok) COP.ex_run)). Qed.
 Print Assumptions C04_out_bytes_example.
+
+(* ---------------------------------------------------------------------------------------------
+   handle_write over the byte-level queue (Proof/ChanOutClose.v).  The flush selection and the close
+   tail are the predicates regenerated from HTTPChannel.handle_write on this run (Gen/GenPreds.v:
+   gen_hw_flush, gen_hw_after; writable() is gen_chan_writable); the flush is _flush_some of
+   Model/ChanOut.v; a socket error inside it sets will_close (_flush_exception).  For every
+   configuration, queue state, flag values and socket behaviour: handle_write calls handle_close() while
+   bytes are still queued ONLY IF will_close was already set or the socket failed during this flush; a
+   deferred close (close_when_flushed) is carried out exactly when the queue is empty, and then every
+   byte that was queued has been accepted by the socket -- the close that follows a response drops no
+   byte of it; and writable() stays true as long as bytes are queued or a close is pending. *)
+From WV Require Gen.GenPreds Proof.ChanOutClose.
+Module COC := WV.Proof.ChanOutClose.
+
+Theorem C04_deferred_close_loses_nothing :
+  forall (c : CO.cfg) (n : Z) (cwf wc : bool) (ch : CO.chan) (ans : list CO.answer),
+  COP.cfg_ok c -> COP.cinv ch ->
+  let r := COC.handle_write_bytes c n cwf wc ch ans in
+  COP.cinv (COC.hw_chan r) /\
+  COP.cabs ch = COC.hw_wire r ++ COP.cabs (COC.hw_chan r) /\
+  (COC.hw_closed r = true ->
+     wc = true \/ COC.hw_raised r = true \/
+     (cwf = true /\ COP.cabs (COC.hw_chan r) = [] /\ COC.hw_wire r = COP.cabs ch)) /\
+  (cwf = true -> COP.cabs (COC.hw_chan r) = [] -> COC.hw_closed r = true) /\
+  (WV.Gen.GenPreds.gen_chan_writable (CO.total_outbufs_len (COC.hw_chan r)) (COC.hw_wc r) (COC.hw_cwf r) = false ->
+     COP.cabs (COC.hw_chan r) = [] /\ COC.hw_wc r = false /\ COC.hw_cwf r = false).
+Proof. exact COC.handle_write_close_sound. Qed.
+Print Assumptions C04_deferred_close_loses_nothing.
+
+Theorem C04_deferred_close_example :
+  let ch := fst (CO.crun COP.ex_cfg CO.chan_new [CO.CWrite (CO.WBytes [1;2;3;4;5]%N) []; CO.CWrite (CO.WFile COP.ex_file) []]) in
+  let r := COC.handle_write_bytes COP.ex_cfg 0 true false ch (repeat (CO.Sent 100) 12) in
+  COC.hw_closed r = true /\ COC.hw_wire r = [1;2;3;4;5;8;7;6;5]%N /\ COP.cabs (COC.hw_chan r) = [] /\
+  COC.hw_wc r = true /\ COC.hw_cwf r = false.
+Proof. exact COC.hw_example. Qed.
+Print Assumptions C04_deferred_close_example.
